@@ -98,8 +98,7 @@ type Exec struct {
 	pointFired int
 	inPoint    bool
 	racePoints []int // per goroutine (1..Gs): statement points reached
-	racePointIDs [][]int32
-	racePointSteps [][]int32
+	racePointOcc [][]pointOcc
 	recordPoints bool
 	pointIDs     []int32
 }
